@@ -17,12 +17,16 @@ pub const KINDS: [&str; 12] = [
     "fn-added", "fn-removed", "sig-changed", "struct-field-added", "struct-field-retyped", "enum-variant-added", "enum-payload-changed",
     "trait-method-added", "impl-added", "impl-removed", "type-renamed", "generic-param-added",
 ];
-pub const GRAPHS: [&str; 3] = ["chain", "diamond", "fan"];
+pub const GRAPHS: [&str; 5] = ["chain", "diamond", "fan", "triangle", "triangle-rev"];
 
 fn graph(name: &str) -> Vec<(&'static str, Vec<&'static str>)> {
     match name {
         "chain" => vec![("Main", vec!["A"]), ("A", vec!["B"]), ("B", vec![])],
         "diamond" => vec![("Main", vec!["A", "B"]), ("A", vec!["C"]), ("B", vec!["C"]), ("C", vec![])],
+        // a package that is both a direct and an indirect dependency of Main, sorting before / after the
+        // package through which it is reached
+        "triangle" => vec![("Main", vec!["A", "B"]), ("B", vec!["A"]), ("A", vec![])],
+        "triangle-rev" => vec![("Main", vec!["A", "B"]), ("A", vec!["B"]), ("B", vec![])],
         _ => vec![("Main", vec!["A", "B"]), ("A", vec![]), ("B", vec![])],
     }
 }
@@ -125,6 +129,9 @@ fn key(st: &St) -> String {
     let mut k = format!("{:?}|", st.variants);
     for a in &st.arts {
         k.push_str(&format!("{:x}:{:x};", a.iface.as_ref().map(|s| fnv(s)).unwrap_or(0), a.core.as_ref().map(|s| fnv(s)).unwrap_or(0)));
+        // the model's view is part of the state: two histories that leave the same bytes on disk but
+        // that the model tells apart must not be merged (that would hide exactly the divergence sought)
+        k.push_str(&format!("{:x};", fnv(&format!("{:?}|{:?}", a.m_iface, a.m_core))));
     }
     k
 }
@@ -205,7 +212,7 @@ impl Family for Staleness {
         900
     }
     fn rule(&self) -> &'static str {
-        "graphs {chain Main->A->B, diamond Main->{A,B}->C, fan Main->{A,B}} x 12 kinds of interface-changing edit (fn added/removed/signature changed, struct field added/retyped, enum variant added/payload changed, trait method added, impl added/removed, type renamed, generic parameter added); each library has source variants {v0, body-only edit, interface-changing edit}; actions = edit(pkg,variant), check(pkg), build(pkg), link; breadth-first search over all histories to depth 5 (quick) / 7 (thorough) with states deduplicated by (source variants, artifact file contents); every transition runs the real functions on real files. Reference model: symbolic interface versions (pkg, interface variant, versions of deps at build time). Oracle in every state: build/check succeed iff the model says the dependencies' interfaces exist; link succeeds iff every core exists and every recorded dependency version equals the version embedded in that dependency's core; a successful link prints the value denoted by the sources that were built; body-only edits leave the interface bytes unchanged and interface edits change the hash. non-trivial = states in which some package is stale; distinct = distinct states"
+        "graphs {chain Main->A->B, diamond Main->{A,B}->C, fan Main->{A,B}, triangle Main->{A,B} with B->A, and with A->B} x 12 kinds of interface-changing edit (fn added/removed/signature changed, struct field added/retyped, enum variant added/payload changed, trait method added, impl added/removed, type renamed, generic parameter added); each library has source variants {v0, body-only edit, interface-changing edit}; actions = edit(pkg,variant), check(pkg), build(pkg), link; breadth-first search over all histories to depth 5 (quick) / 7 (thorough) with states deduplicated by (source variants, artifact file contents, the model's versions); every transition runs the real functions on real files. Reference model: symbolic interface versions (pkg, interface variant, versions of deps at build time). Oracle in every state: the dependency hashes a built/checked package records are those of the interface files it was built against; build/check succeed iff the model says the dependencies' interfaces exist; link succeeds iff every core exists and every recorded dependency version equals the version embedded in that dependency's core; a successful link prints the value denoted by the sources that were built; body-only edits leave the interface bytes unchanged and interface edits change the hash. non-trivial = states in which some package is stale; distinct = distinct states"
     }
     fn cases(&self, tier: Tier) -> Box<dyn Iterator<Item = Value> + '_> {
         let mut v = Vec::new();
@@ -327,6 +334,14 @@ impl Family for Staleness {
                                     }
                                     let ij = serde_json::to_string_pretty(&unit.interface).unwrap();
                                     let cj = serde_json::to_string_pretty(&unit).unwrap();
+                                    // the hashes a package records are those of the interface files it was built against
+                                    for d in &w.g[*i].1 {
+                                        let used = st.arts[w.idx(d)].iface.as_ref().and_then(|t| serde_json::from_str::<Value>(t).ok()).and_then(|v| v["interface_hash"].as_str().map(|x| x.to_string()));
+                                        let recorded = unit.interface.deps.get(*d).cloned();
+                                        if used.is_some() && recorded != used {
+                                            push(&mut rep, "build.recorded-hash-differs-from-interface-used", format!("package {} records {:?} for {} but was built against {:?}; history {:?}", pkg.name, recorded, d, used, h2), &h2);
+                                        }
+                                    }
                                     // hash discipline
                                     if st.variants[*i] == 0 && dep_vers.iter().all(|(_, v)| !v.contains("#1")) {
                                         iface_v0.entry(*i).or_insert_with(|| unit.interface.interface_hash.clone());
@@ -349,6 +364,13 @@ impl Family for Staleness {
                                 Ok(Ok(unit)) => {
                                     if !deps_ok {
                                         push(&mut rep, "check.succeeded-without-dependency-interface", format!("after {:?}", h2), &h2);
+                                    }
+                                    for d in &w.g[*i].1 {
+                                        let used = st.arts[w.idx(d)].iface.as_ref().and_then(|t| serde_json::from_str::<Value>(t).ok()).and_then(|v| v["interface_hash"].as_str().map(|x| x.to_string()));
+                                        let recorded = unit.deps.get(*d).cloned();
+                                        if used.is_some() && recorded != used {
+                                            push(&mut rep, "check.recorded-hash-differs-from-interface-used", format!("package {} records {:?} for {} but was checked against {:?}; history {:?}", pkg.name, recorded, d, used, h2), &h2);
+                                        }
                                     }
                                     next.arts[*i].iface = Some(std::sync::Arc::new(serde_json::to_string_pretty(&unit).unwrap()));
                                     next.arts[*i].m_iface = Some(self_ver);
